@@ -34,6 +34,7 @@ func init() {
 	SubRegistry["c12-query"] = subC12Query
 	SubRegistry["c12-pubs"] = subC12Pubs
 	SubRegistry["c12-name"] = subC12Name
+	SubRegistry["c12-selector"] = subC12Selector
 }
 
 // ---------------------------------------------------------------- key generation: one member sends malformed messages
@@ -405,15 +406,21 @@ func subC12P2P(kind string) string {
 
 // ---------------------------------------------------------------- the share collector and the recovery stage
 
-var c12QueryKinds = []string{"sig-all-nil", "sig-empty-request-id", "sig-nil-content", "sig-nil-signature", "sig-one-byte", "sig-long-request-id", "sig-huge-content"}
+var c12QueryKinds = []string{"sig-all-nil", "sig-empty-request-id", "sig-nil-content", "sig-nil-signature", "sig-one-byte", "sig-long-request-id", "sig-huge-content", "valid-share-mislabelled-then-short-signature"}
 
 func subC12Query(kind string) string {
 	rng := hx.NewRng(11)
 	n := 3
 	lastRand := big.NewInt(5) // submitter = index 2
 	byz := map[int]byzKind{}
+	var late map[int]time.Duration
+	if kind == "valid-share-mislabelled-then-short-signature" {
+		// member 0 misbehaves; member 1's own share arrives later
+		byz[0] = byzWrongContentThenShort
+		late = map[int]time.Duration{1: 400 * time.Millisecond}
+	}
 	// run an honest request first with crafted messages thrown at the submitter's collector, then a second one
-	o, _, _ := runQuerySystemWith(rng, n, lastRand, big.NewInt(9), big.NewInt(1), 0, byz, nil, 4*time.Second, func(send func(*vss.Signature)) {
+	o, _, _ := runQuerySystemWith(rng, n, lastRand, big.NewInt(9), big.NewInt(1), 0, byz, late, 4*time.Second, func(send func(*vss.Signature)) {
 		switch kind {
 		case "sig-all-nil":
 			send(&vss.Signature{})
@@ -438,6 +445,39 @@ func subC12Query(kind string) string {
 		return "served"
 	}
 	return fmt.Sprintf("not-served:%d", len(o.reports[2]))
+}
+
+// ---------------------------------------------------------------- selectors that could take the process down
+
+var c12Selectors = map[string]string{
+	"function-deep-recursion": "$.a[(factorial(1e10))]",
+	"filter-function":         "$.a[?(factorial(200000) > 1)]",
+	"deep-brackets":           "$" + strings.Repeat("[0]", 20000),
+	"recursive-descent":       "$" + strings.Repeat("..a", 3000),
+	"xpath-deep":              "/" + strings.Repeat("a/", 20000) + "b",
+	"xpath-predicates":        "//item" + strings.Repeat("[1]", 5000),
+}
+
+func subC12Selector(kind string) string {
+	doc := []byte(`{"a":[1,2,3],"b":{"a":{"a":1}}}`)
+	if strings.HasPrefix(kind, "xpath") {
+		doc = []byte("<root><item><a><b>1</b></a></item></root>")
+	}
+	res := make(chan string, 1)
+	go func() {
+		_, err := dosnode.VerifDataParse(doc, c12Selectors[kind])
+		if err != nil {
+			res <- "served"
+			return
+		}
+		res <- "served"
+	}()
+	select {
+	case r := <-res:
+		return r
+	case <-time.After(15 * time.Second):
+		return "not-served: the extractor did not return within 15 s"
+	}
 }
 
 // ---------------------------------------------------------------- correspondence scenarios
@@ -614,6 +654,30 @@ func genC12(rng *hx.Rng, tier string, w *hx.Writer) error {
 	}
 	for _, k := range c12QueryKinds {
 		scen("signature-share", k, "c12-query", 25*time.Second)
+	}
+	for _, k := range []string{"function-deep-recursion", "filter-function", "deep-brackets", "recursive-descent", "xpath-deep", "xpath-predicates"} {
+		k := k
+		jobs = append(jobs, &c12job{
+			c:   hx.Case{Entry: "-", Op: 0, Args: hx.L(hx.B([]byte("selector")), hx.B([]byte(k))), Tags: []string{"selector", "k:" + k, "nt"}},
+			sub: "c12-selector", arg: k, timeout: 40 * time.Second, group: "selector",
+			finish: func(out string) (string, bool) { return hx.B([]byte(out)), out == "served" },
+			explain: func(class, out, panicLine string) (string, string) {
+				sel := c12Selectors[k]
+				if len(sel) > 60 {
+					sel = sel[:60] + "..."
+				}
+				switch class {
+				case "P":
+					if k == "function-deep-recursion" || k == "filter-function" {
+						return "jsonpath-function-stack-overflow", "the selector " + sel + " (driver sub c12-selector " + k + ") kills the process: " + panicLine
+					}
+					return "selector-crash", "the selector " + sel + " (driver sub c12-selector " + k + ") kills the process: " + panicLine
+				case "H":
+					return "selector-hang", "the selector " + sel + " (driver sub c12-selector " + k + ") did not finish"
+				}
+				return "selector-hang", out
+			},
+		})
 	}
 	// handshake: the model says which handshakes are accepted (entry guards, op 3)
 	hs := []struct {
